@@ -6,7 +6,7 @@
     and of the range coder (RcAbs/RcDec/RcEnc/RcRoundtrip.v): every bit
     sequence, under every context-selection program, with the adaptive
     probabilities, survives encode-then-decode. *)
-From XZ Require Import Base Bcj BcjProofs BcjProofs2 Xz VliProofs Bound Lzma RcAbs RcDec RcEnc RcRoundtrip RcCodes LzmaEnc LzmaSym LzmaRun.
+From XZ Require Import Base Bcj BcjProofs BcjProofs2 BcjProofs3 Xz VliProofs Bound Lzma RcAbs RcDec RcEnc RcRoundtrip RcCodes LzmaEnc LzmaSym LzmaRun.
 Local Open Scope N_scope.
 
 Theorem delta_filter_lossless : forall dist l, bytes_ok l -> delta_decode dist (delta_encode dist l) = l.
@@ -27,6 +27,16 @@ Theorem sparc_filter_lossless : forall start l, aligned4 (w32 start) -> bytes_ok
   fst (sparc_code false start (fst (sparc_code true start l))) = l.
 Proof. exact sparc_roundtrip. Qed.
 Print Assumptions sparc_filter_lossless.
+
+Theorem arm64_filter_lossless : forall start l, aligned4 (w32 start) -> bytes_ok l ->
+  fst (arm64_code false start (fst (arm64_code true start l))) = l.
+Proof. exact arm64_roundtrip. Qed.
+Print Assumptions arm64_filter_lossless.
+
+Theorem armthumb_filter_lossless : forall start l, aligned2 (w32 start) -> bytes_ok l ->
+  fst (armthumb_code false start (fst (armthumb_code true start l))) = l.
+Proof. exact armthumb_roundtrip. Qed.
+Print Assumptions armthumb_filter_lossless.
 
 Theorem integer_fields_lossless : forall v rest, v <= VLI_MAX -> vli_decode (vli_encode v ++ rest) = Some (v, rest).
 Proof. exact vli_decode_encode. Qed.
